@@ -3,6 +3,7 @@ package vuego
 import (
 	"io"
 	"io/fs"
+	"strconv"
 	"sync"
 	"time"
 
@@ -145,11 +146,6 @@ func (v *Vue) Render(w io.Writer, filename string, data any) error {
 		Processors: v.nodeProcessors,
 	})
 
-	// Assign unique IDs to all v-once elements for tracking across deep clones
-	for _, node := range dom {
-		assignSeenAttrs(&vueCtx, node)
-	}
-
 	// Use renderNodesWithContext with pre-configured context
 	return v.renderNodesWithContext(vueCtx, w, dom)
 }
@@ -184,6 +180,7 @@ func (v *Vue) loadCachedWithFrontMatter(filename string) (map[string]any, []*htm
 	if err != nil {
 		return nil, nil, err
 	}
+	assignSeenAttrs(filename, dom)
 
 	v.templateMu.Lock()
 	v.templateCache[filename] = &templateCacheEntry{
@@ -196,16 +193,23 @@ func (v *Vue) loadCachedWithFrontMatter(filename string) (map[string]any, []*htm
 	return frontMatter, dom, nil
 }
 
-// assignSeenAttrs recursively assigns unique IDs to all v-once elements in the tree
-func assignSeenAttrs(ctx *VueContext, node *html.Node) {
-	if node.Type == html.ElementNode {
-		if helpers.HasAttr(node, "v-once") {
-			id := ctx.nextSeenID()
-			helpers.SetAttr(node, "v-once-id", id)
+// assignSeenAttrs assigns an ID to every v-once element of a freshly parsed template.
+// The ID is derived from the template name and the element's position in it, so the same element
+// gets the same ID every time its template is parsed, and distinct elements never share one.
+func assignSeenAttrs(filename string, nodes []*html.Node) {
+	n := 0
+	var walk func(node *html.Node)
+	walk = func(node *html.Node) {
+		if node.Type == html.ElementNode && helpers.HasAttr(node, "v-once") {
+			n++
+			helpers.SetAttr(node, "v-once-id", filename+"#"+strconv.Itoa(n))
+		}
+		for c := node.FirstChild; c != nil; c = c.NextSibling {
+			walk(c)
 		}
 	}
-	for c := node.FirstChild; c != nil; c = c.NextSibling {
-		assignSeenAttrs(ctx, c)
+	for _, node := range nodes {
+		walk(node)
 	}
 }
 
@@ -222,6 +226,7 @@ func (v *Vue) RenderFragment(w io.Writer, filename string, data any) error {
 	if err != nil {
 		return err
 	}
+	assignSeenAttrs(filename, dom)
 
 	// Merge front-matter data into the provided data (front-matter is authoritative)
 	dataMap := toMapData(data)
@@ -234,11 +239,6 @@ func (v *Vue) RenderFragment(w io.Writer, filename string, data any) error {
 		Stack:      NewStackWithData(dataMap, data),
 		Processors: v.nodeProcessors,
 	})
-
-	// Assign unique IDs to all v-once elements for tracking across deep clones
-	for _, node := range dom {
-		assignSeenAttrs(&vueCtx, node)
-	}
 
 	// Use RenderNodes with pre-configured context
 	return v.renderNodesWithContext(vueCtx, w, dom)
